@@ -734,6 +734,31 @@ class Desugarer:
         self.report.append(("then", c["key"], line))
         return ck
 
+    def then_some(self, c, blk):
+        """rewrite `dst = b.then_some(v)` into `if b { dst = Some(v) } else { dst = None }` (v is evaluated before either way)"""
+        t = blk["term"]
+        args = t["args"]
+        if len(args) != 2 or t["target"] is None:
+            return False
+        line = t.get("line", 0)
+        B = max(b["id"] for b in c["blocks"]) + 1
+        BS, BH, BM = B, B + 1, B + 2
+        dst, target = t["dst"], t["target"]
+
+        def asg(d, rv):
+            return {"k": "assign", "dst": d, "rv": rv, "line": line, "inl": "comb"}
+        enum = "std::option::Option"
+        sw = {"id": BS, "stmts": [], "term": {"k": "switch", "discr": args[0], "discr_ty": "bool", "targets": [[0, BM, None]], "otherwise": BH, "line": line,
+                                               "comb": "then_some"}}
+        bh = {"id": BH, "stmts": [asg(copy.deepcopy(dst), {"k": "aggregate", "agg": "adt", "adt": enum, "variant": "Some", "fields": ["0"], "ops": [args[1]]})],
+              "term": {"k": "goto", "target": target, "line": line}}
+        bm = {"id": BM, "stmts": [asg(copy.deepcopy(dst), {"k": "aggregate", "agg": "adt", "adt": enum, "variant": "None", "fields": [], "ops": []})],
+              "term": {"k": "goto", "target": target, "line": line}}
+        c["blocks"].extend([sw, bh, bm])
+        blk["term"] = {"k": "goto", "target": BS, "line": line}
+        self.report.append(("then_some", c["key"], line))
+        return True
+
     def run(self):
         gone = set()
         progress = True
@@ -760,6 +785,9 @@ class Desugarer:
                         ck = self.then(c, blk)
                         if ck:
                             gone.add(ck)
+                            progress = True
+                    elif t["k"] == "call" and t["callee"].get("key") == "bool::then_some":
+                        if self.then_some(c, blk):
                             progress = True
         gone |= set(self.extra_gone)
         if gone:
